@@ -277,7 +277,7 @@ class Config:
         return min((2 ** bits - 1) // 4, 2 ** (bits - 1) - 1)
 
     def driver_args(self):
-        return [self.fl, str(self.N), str(self.M), 'ta' + self.abits, str(self.max_size())]
+        return [self.fl, str(self.N), str(self.M), 'ta' + self.abits, str(self.max_size())] + (['optout'] if '-DGCH_NO_STRONG_EXCEPTION_GUARANTEES' in self.extra else [])
 
     def describe(self):
         return dict(flavour=self.fl, N=self.N, M=self.M, alloc_bits_pocca_pocma_pocs_ae_soccc=self.abits, std=self.std, cxx=self.cxx, ndebug=self.ndebug, size_type=self.st)
@@ -586,8 +586,11 @@ def core_configs(tier):
     # compiled there, and a run-time-live one (shrink_to_size's catch block) would otherwise be seen by C17's runs alone
     if tier == 'quick':
         cfgs += [Config('Et', 3, 1, '11100', std='c++20'), Config('En', 1, 3, '01000'), Config('En', 0, 3, '10001'), Config('Et', 1, 3, '00010')]
+        cfgs += [Config('Et', 1, 3, '00000', extra=('-DGCH_NO_STRONG_EXCEPTION_GUARANTEES',))]
     else:
         cfgs += [Config('Et', 3, 1, '00000', std='c++20'), Config('En', 1, 3, '00000', std='c++20'), Config('Tr', 0, 3, '00000', std='c++20')]
+        # the documented opt-out: relocation always moves, also for a copyable type whose move may throw (basic guarantee only)
+        cfgs += [Config('Et', 1, 3, '00000', extra=('-DGCH_NO_STRONG_EXCEPTION_GUARANTEES',)), Config('Et', 3, 1, '00000', extra=('-DGCH_NO_STRONG_EXCEPTION_GUARANTEES',))]
     return cfgs
 
 
